@@ -39,6 +39,9 @@ pub struct Scn {
     pub fourth_when_forgotten: bool,
     /// extra fate: delay by this long (stale datagrams outliving their connection)
     pub long_delay_ms: Option<u64>,
+    /// the very first datagram of the run (a client's first Initial) is damaged in transit: the
+    /// original is lost, a copy with one authenticated bit flipped arrives instead
+    pub damaged_first: bool,
 }
 
 fn plan(len: usize) -> Plan {
@@ -91,7 +94,23 @@ pub struct Out {
 
 pub fn run(base: Instant, s: &Scn, devs: &Devs, alts: &[Fate], dump: bool) -> Out {
     let r = guarded(|| {
-        let mut m = build(base, s, fates_of(devs, alts));
+        let mut fates = fates_of(devs, alts);
+        if s.damaged_first {
+            fates.insert(0, Fate::Drop);
+        }
+        let mut m = build(base, s, fates);
+        if s.damaged_first {
+            let first = m.w.recs.iter().find_map(|r| match r {
+                Rec::Emit { idx: 0, data, src, dst, .. } => Some((data.clone(), *src, *dst)),
+                _ => None,
+            });
+            if let Some((mut d, src, dst)) = first {
+                let n = d.len();
+                d[n - 3] ^= 0x20;
+                let lat = m.w.latency;
+                m.w.inject(src, dst, d, lat);
+            }
+        }
         let mut closed: Vec<usize> = vec![];
         let mut fourth_done = false;
         let hz = Duration::from_secs(120);
@@ -282,7 +301,7 @@ pub fn run(base: Instant, s: &Scn, devs: &Devs, alts: &[Fate], dump: bool) -> Ou
 
 pub fn scenarios(thorough: bool) -> Vec<Scn> {
     let mut v = vec![];
-    let mk = |name: &str, cid_len: usize| Scn { name: name.into(), cid_len, cid_lifetime_ms: None, addr_changed: vec![], close: vec![], fourth_at: None, window: (0, 30), same_client_endpoint_twice: false, fourth_when_forgotten: false, long_delay_ms: None };
+    let mk = |name: &str, cid_len: usize| Scn { name: name.into(), cid_len, cid_lifetime_ms: None, addr_changed: vec![], close: vec![], fourth_at: None, window: (0, 30), same_client_endpoint_twice: false, fourth_when_forgotten: false, long_delay_ms: None, damaged_first: false };
     for l in [8usize, 0, 1, 4, 20] {
         v.push(mk(&format!("cid{l}"), l));
     }
@@ -331,6 +350,12 @@ pub fn scenarios(thorough: bool) -> Vec<Scn> {
         s.close = vec![(at, 0)];
         s.fourth_at = Some(at + 40);
         s.window = (at.saturating_sub(10), at + 20);
+        v.push(s);
+    }
+    for cl in [8usize, 0, 20] {
+        let mut s = mk(&format!("first-initial-damaged-cid{cl}"), cl);
+        s.damaged_first = true;
+        s.window = (1, 24);
         v.push(s);
     }
     let mut s = mk("cid4-close+fourth", 4);
